@@ -144,9 +144,8 @@ Proof.
         destruct (t_buf s (S i)) eqn:B0; [|discriminate]. intro H. inversion H; subst s'; clear H.
         cbn [t_mem]. destruct (t_bg s) eqn:Eb; cbn [next_pc].
         -- (* lost: return false *)
-           assert (E : t_set_pc (t_wmem s BG true) (S i) (PB BWo (pred r)) = t_set_pc s (S i) (PB BWo (pred r))).
-           { unfold t_set_pc, t_wmem. cbn. rewrite Eb. reflexivity. }
-           rewrite E. apply t_bstep_pc; eauto; try (rewrite Ec; reflexivity). cbn. discriminate.
+           assert (Es : mkTSO (t_fg s) true (t_pcs s) (t_buf s) = s) by (destruct s; cbn in *; congruence).
+           unfold t_wmem. rewrite Es. apply t_bstep_pc; eauto; try (rewrite Ec; reflexivity). cbn. discriminate.
         -- (* won *)
            assert (Hno : forall k, ~ hp s k). { intros k H. rewrite (ti_bg _ I k H) in Eb. discriminate. }
            constructor.
@@ -161,7 +160,7 @@ Proof.
               apply (ti_excl _ I Hc).
       * (* re-check *)
         intro H. inversion H; subst s'; clear H. rewrite (Rfg (or_introl Bc)).
-        destruct (t_fg s) eqn:Ef; apply t_bstep_pc; eauto; try (rewrite Ec; reflexivity). cbn. discriminate.
+        destruct (t_fg s) eqn:Ef; apply t_bstep_pc; eauto; try (rewrite Ec; reflexivity); try (cbn; discriminate).
       * (* release and retry: the store goes to the buffer, the stealer still counts as pending *)
         intro H. inversion H; subst s'; clear H. rewrite Bc. cbn [app].
         assert (HP : forall k, hp (t_set_pc (t_set_buf s (S i) [(BG, false)]) (S i) (PB BWo r)) k <-> hp s k).
@@ -198,8 +197,10 @@ Proof.
                               (fc = FFence /\ rest = [] /\ v = true /\ t_fg s = false) \/
                               (fc = FFence /\ rest = [(FG, true)] /\ v = false /\ t_fg s = true))).
       { destruct fc; rewrite Bp in F.
-        - destruct F as [[X _]|[X Y]]; [discriminate|]. inversion X; subst. auto.
-        - destruct F as [[X _]|[[X Y]|[X Y]]]; [discriminate| |]; inversion X; subst; auto 6.
+        - destruct F as [[X _]|[X Y]]; [discriminate|]. inversion X; subst. split; [reflexivity|left; repeat split; auto].
+        - destruct F as [[X _]|[[X Y]|[X Y]]]; [discriminate| |]; inversion X; subst.
+          + split; [reflexivity|right; left; repeat split; auto].
+          + split; [reflexivity|right; right; repeat split; auto].
         - destruct F as [X _]; discriminate.
         - destruct F as [X _]; discriminate.
         - destruct F as [X _]; discriminate. }
